@@ -225,7 +225,8 @@ def script_full(m, a, b, c):
     idx["dbc_rc"] = s.add("diff", "t1", "t9", DIFF_DEFAULTS, "t10")
     idx["dbc"] = s.dump(10)
     for mo in (0, MERGE_DEFAULTS):
-        s.add("dup", "t2", "t11", DUPF)
+        # (the target diff is made again, not duplicated: lyd_dup_siblings may re-sort the instances of a list - d989bef)
+        s.add("diff", "t0", "t1", DIFF_DEFAULTS, "t11")
         idx["mg_rc", mo] = s.add("dmerge", "t11", "t10", mo)
         idx["mg", mo] = s.dump(11)
         s.add("dup", "t0", "t12", DUPF)
@@ -233,7 +234,7 @@ def script_full(m, a, b, c):
         idx["map", mo] = s.dump(12)
     idx["dba_rc"] = s.add("diff", "t1", "t0", DIFF_DEFAULTS, "t13")
     idx["dba"] = s.dump(13)
-    s.add("dup", "t2", "t14", DUPF)
+    s.add("diff", "t0", "t1", DIFF_DEFAULTS, "t14")
     idx["un_rc"] = s.add("dmerge", "t14", "t13", 0)
     idx["un"] = s.dump(14)
     s.add("dup", "t0", "t15", DUPF)
@@ -415,9 +416,10 @@ class FixedRegress:
     kinds = None
     quick_sanitize = False
 
-    def __init__(self, part):
+    def __init__(self, part, driver="lyx"):
         self.part = part
-        self.name = "difftree-regress-" + part
+        self.driver = driver
+        self.name = "difftree-regress-" + part + ("" if driver == "lyx" else "-" + driver)
         self.pat = {}
 
     def gen(self, rng, tier, scale=1.0):
@@ -428,7 +430,7 @@ class FixedRegress:
         for fn in ("difftree.json", "diff.json"):
             for e in json.load(open(os.path.join(vlib.VERIF, "known_findings.d", fn))):
                 rcase = e.get("regression_case")
-                if e.get("status") != "fixed" or e.get("property") != self.part or not rcase or rcase.get("driver") != "lyx":
+                if e.get("status") != "fixed" or e.get("property") != self.part or not rcase or rcase.get("driver") != self.driver:
                     continue
                 if "corpus_line" in rcase:
                     f, idx = rcase["corpus_line"]
@@ -779,17 +781,6 @@ class DiffKinds:
             return None
         ix, S, fmt, abc = inf
         if out.startswith("CRASH(") or out == "TIMEOUT":
-            if self.part == "C13":
-                A, B, C = (K.parse_xdump(x) for x in abc)
-                t = self.merge_known(S, A, B, C)
-                # (signal numbers of the plain build; a sanitizer build reports the same defects with another status)
-                cands = [x for x in ("merge-any-replace-delete", "merge-opaque") if x in t]
-                if len(cands) == 2:
-                    cands = cands[1:] if out.startswith("CRASH(-11)") else cands[:1]
-                if cands == ["merge-any-replace-delete"]:
-                    return (cands[0], "lyd_diff_merge_all: assertion failure (anydata replaced, then deleted)")
-                if cands == ["merge-opaque"]:
-                    return (cands[0], "lyd_diff_merge_all: crash on an opaque node of a created and then deleted subtree")
             return (None, "crash: " + out)
         r = results(out)
         g = {k: r[v] for k, v in ix.items()}
@@ -837,36 +828,10 @@ class DiffKinds:
                     cnt[k] = cnt.get(k, 0) + 1
         return any(v > 1 for v in cnt.values())
 
-    def merge_known(self, S, A, B, C):
-        """the known merge findings a triple can run into"""
-        K = _kinds()
-        ia, ib, ic = kn_index(S, A), kn_index(S, B), kn_index(S, C)
-        t = {}
-
-        def has_opq(n):
-            return any(c.opq or has_opq(c) for c in n.children)
-        for p, n in ia.items():
-            if not p:
-                continue
-            if kn_is_any(S, n):
-                if p in ib and p not in ic and n.val != ib[p].val:
-                    t["merge-any-replace-delete"] = p
-                if p not in ib and p in ic and n.val != ic[p].val:
-                    t.setdefault("merge-any-delete-create", []).append(p)
-            elif p not in ib and p in ic and has_opq(n) and has_opq(ic[p]):
-                t["merge-opaque"] = p
-        for p, n in ib.items():
-            if p and p not in ia and p not in ic and has_opq(n):
-                t["merge-opaque"] = p
-        return t
-
     def judge_merge(self, S, g, A, B, C, c):
         K = _kinds()
-        t = self.merge_known(S, A, B, C)
         if g["mg_rc"] != "0":
-            if g["mg_rc"].startswith("6") and "merge-opaque" in t:
-                return ("merge-opaque", "lyd_diff_merge_all fails with an internal error on an opaque node of a deleted and then "
-                        "created subtree")
+            # (fixed findings merge-opaque 4b5ac3f, merge-any-replace-delete e592b93, merge-any-delete-create eaa6a18)
             return (None, "lyd_diff_merge_all failed: " + g["mg_rc"])
         if not g["map_rc"].startswith("0"):
             return (None, "apply(merge(diff(A,B),diff(B,C)),A) failed: " + g["map_rc"])
@@ -877,13 +842,6 @@ class DiffKinds:
             m = kinds_norm(c, meta=False) != kinds_norm(K.render(E), meta=False)
             return ("diff-ignores-opaque-c13" if m else "diff-ignores-metadata-c13",
                     "apply(merge(diff(A,B),diff(B,C)),A): metadata / opaque nodes of nodes present on both sides are not carried")
-        ia, ie = kn_index(S, A), kn_index(S, E)
-        for p in t.get("merge-any-delete-create", []):
-            if p in ie:
-                ie[p].val = ia[p].val
-        if t.get("merge-any-delete-create") and kinds_norm(g["map"]) == kinds_norm(K.render(E)):
-            return ("merge-any-delete-create", "apply(merge(diff(A,B),diff(B,C)),A): an anydata deleted and created again with "
-                    "another value keeps the old value (the merged operation is none)")
         return (None, "apply(merge(diff(A,B),diff(B,C)),A) differs from the expected tree:\n%s\nand from what the known "
                 "limitations give:\n%s" % (kn_delta(kinds_norm(g["map"]), kinds_norm(c)), kn_delta(kinds_norm(g["map"]), kinds_norm(K.render(E)))))
 
@@ -893,18 +851,8 @@ class DiffKinds:
         K = _kinds()
         ia, ib = kn_index(S, A), kn_index(S, B)
         repl = [p for p, n in ia.items() if p and kn_is_any(S, n) and p in ib and n.val != ib[p].val]
-        noval = [p for p in repl if ia[p].val.startswith("aN")]
-        def text(v):
-            if v.startswith("aN"):
-                return ""
-            return None if v[1] not in "sxj" else v[2:].replace("-", "")
-        same = [p for p in repl if p not in noval and text(ia[p].val) is not None and text(ia[p].val) == text(ib[p].val)]
         if g["rev_rc"] != "0":
-            if g["rev_rc"].startswith("3~") and noval:
-                return ("any-empty-orig-value", "lyd_diff_reverse_all fails: the replace of an anydata without a value has no orig-value")
-            if g["rev_rc"].startswith("11") and same:
-                return ("reverse-any-same-text", "lyd_diff_reverse_all fails with LY_ENOT: anydata replaced by another representation "
-                        "of the same text")
+            # (fixed findings any-empty-orig-value 05a4858, reverse-any-same-text bd6fa8c)
             return (None, "lyd_diff_reverse_all failed: " + g["rev_rc"])
         if not g["vap_rc"].startswith("0"):
             return (None, "apply(reverse(diff(A,B)),B) failed: " + g["vap_rc"])
